@@ -120,7 +120,7 @@ def config(tier, seed):
         return {
             "seg": [{"lat": lat, "p": (5, 4, 3), "comps": COMPS_QUICK},
                     {"lat": lat4, "p": (4, 3, 2), "comps": COMPS_QUICK}],
-            "pts": [{"lat": lat, "p": (4, 3, 2), "comps": COMPS_QUICK, "style": 0},
+            "pts": [{"lat": lat, "p": (4, 4, 2), "comps": COMPS_QUICK, "style": 0},
                     {"lat": lat, "p": (3, 3, 2), "comps": COMPS_QUICK, "style": 1},
                     {"lat": lat, "p": (3, 3, 2), "comps": COMPS_QUICK, "style": 2}],
             "pairs": [],
